@@ -63,6 +63,13 @@ func CheckC01(sc *Scenario, res *Result) *Violation {
 	// after a pass has begun to start modules. So (d) and the "prep ends before any start" half of (a) are not judged from
 	// then on; everything else is - above all (e).
 	afterFailedPrep := false
+	// several goroutines calling Shutdown: one of them does the work, the others are told "already initiated"
+	extraCallers, shutdownCalls, shutdownNil := 0, 0, 0
+	for _, st := range sc.Steps {
+		if st.Op == "shutdown" {
+			extraCallers += st.US
+		}
+	}
 
 	for _, e := range evs {
 		st := ms[e.Mod]
@@ -127,7 +134,13 @@ func CheckC01(sc *Scenario, res *Result) *Violation {
 				enabled[n] = op == "enable"
 			}
 		case "api":
-			if !faulty && !e.ErrNil && (e.Info == "start" || e.Info == "manage" || e.Info == "shutdown") {
+			if e.Info == "shutdown" || e.Info == "shutdown-extra" {
+				shutdownCalls++
+				if e.ErrNil {
+					shutdownNil++
+				}
+			}
+			if !faulty && !e.ErrNil && (e.Info == "start" || e.Info == "manage" || (e.Info == "shutdown" && extraCallers == 0)) {
 				// (f) with an acyclic graph and no failing routine there is nothing to report: an error here means
 				// the wanted modules were not brought online / stopped (e.g. a bogus "dependency loop").
 				return violf("C01f-spurious-error", "%s returned %q although no lifecycle routine fails and the graph is acyclic; status=%v", e.Info, e.Err, e.Status)
@@ -167,8 +180,9 @@ func CheckC01(sc *Scenario, res *Result) *Violation {
 						}
 					}
 				}
-			case "shutdown", "final":
-				if e.Info == "shutdown" {
+			case "shutdown", "shutdown-extra", "final":
+				// (every caller of Shutdown: a second one that overlaps the first returns no earlier than it)
+				if e.Info != "final" {
 					shutdownReturned = true
 				}
 				if !shutdownReturned {
@@ -187,6 +201,9 @@ func CheckC01(sc *Scenario, res *Result) *Violation {
 				}
 			}
 		}
+	}
+	if !faulty && extraCallers > 0 && shutdownCalls > 0 && shutdownNil == 0 {
+		return violf("C01f-spurious-error", "none of the %d concurrent Shutdown calls returned nil although no lifecycle routine fails and the graph is acyclic", shutdownCalls)
 	}
 	return nil
 }
